@@ -191,7 +191,20 @@ def check(case: dict):
         elif op == "mix":
             # half of the mazes come from the loaded dataset, half are the originals (same content, different array provenance)
             mz = [b if (i + again.get("k", 0)) % 2 else a for i, (a, b) in enumerate(zip(ds.mazes, loaded.mazes))]
-        if op == "same-object":
+        if op.startswith("inplace"):
+            # the loaded object itself is edited (same number of mazes) and serialized again
+            ds2 = loaded
+            if op == "inplace-reverse":
+                ds2.mazes.reverse()
+            elif op == "inplace-swap" and len(ds2.mazes) >= 2:
+                i, j = again.get("k", 0) % len(ds2.mazes), (again.get("k", 0) + 1 + again.get("j", 0)) % len(ds2.mazes)
+                ds2.mazes[i], ds2.mazes[j] = ds2.mazes[j], ds2.mazes[i]
+            elif op == "inplace-replace" and len(ds2.mazes) >= 1:
+                i = again.get("k", 0) % len(ds2.mazes)
+                ds2.mazes[i] = ds.mazes[(i + 1 + again.get("j", 0)) % len(ds.mazes)]
+            elif op == "inplace-assign":
+                ds2.mazes = list(ds2.mazes[::-1])
+        elif op == "same-object":
             ds2 = loaded
         else:
             ds2 = MazeDataset(cfg=loaded.cfg, mazes=mz, generation_metadata_collected=loaded.generation_metadata_collected)
@@ -272,7 +285,7 @@ def check_collection(case: dict):
 
 # ------------------------------------------------------------------------------------------ strategies
 
-_SAFE_FILTERS = ["path_length", "truncate_count", "start_end_distance"]
+_SAFE_FILTERS = ["path_length", "truncate_count", "start_end_distance", "remove_duplicates"]
 
 
 @st.composite
@@ -313,7 +326,7 @@ def _case(draw, n_hi, mazes_hi):
         case["threshold"] = draw(st.sampled_from([None, 1, "len", "len+1", 100, 3]))
     case["channel"] = draw(st.sampled_from(["memory", "memory", "file"]))
     if draw(st.booleans()):
-        case["again"] = {"op": draw(st.sampled_from(["reverse", "rotate", "swap", "subset", "mix", "same-object"])), "k": draw(st.integers(0, 5)), "j": draw(st.integers(0, 3)),
+        case["again"] = {"op": draw(st.sampled_from(["reverse", "rotate", "swap", "subset", "mix", "same-object", "inplace-reverse", "inplace-swap", "inplace-replace", "inplace-assign"])), "k": draw(st.integers(0, 5)), "j": draw(st.integers(0, 3)),
                          "fmt": draw(st.sampled_from(["full", "minimal", "soln_cat"]))}
     return case
 
@@ -348,7 +361,7 @@ def _collection(draw):
 @st.composite
 def _large(draw):
     """sizes that cross ZANJ's external-storage thresholds and the default minimal threshold"""
-    n_mazes = draw(st.sampled_from([99, 100, 101, 255, 256, 300]))
+    n_mazes = draw(st.sampled_from([100, 256, 99, 101, 255, 300]))
     spec = {"name": "big", "grid_n": draw(st.sampled_from([3, 4, 6])), "n_mazes": n_mazes, "ctor": draw(st.sampled_from(["gen_dfs", "gen_dfs_percolation"])),
             "kwargs": {}, "seed": draw(st.integers(0, 1000))}
     return {"src": "gen", "spec": spec, "meta": draw(st.sampled_from(["fresh", "collected", "stripped"])),
@@ -360,6 +373,6 @@ def subs(tier: str):
     out = [
         Sub("datasets", check, "hypothesis", strategy=lambda: _case(6 if q else 8, 8 if q else 12), examples=50 if q else 4000),
         Sub("collections", check_collection, "hypothesis", strategy=_collection, examples=12 if q else 1000),
-        Sub("large", check, "hypothesis", strategy=_large, examples=1 if q else 40),
+        Sub("large", check, "hypothesis", strategy=_large, examples=2 if q else 40),
     ]
     return out
